@@ -230,11 +230,18 @@ def run_topic(case: dict) -> Result:
             x = rp["t"]
             if x in ctx["pub_instants"]:
                 continue
-            hist = [pub["pid"] for pub in ctx["pubs"] if pub["t"] < x][-maxh:]
+            earlier = [pub for pub in ctx["pubs"] if pub["t"] < x]
+            hist = [pub["pid"] for pub in earlier][-maxh:]
+            # publishes issued at one instant reach the topic in an order the harness does not control
+            tie_at_cut = len(earlier) > maxh and earlier[-maxh]["t"] == earlier[-maxh - 1]["t"]
+            t_of = {pub["pid"]: pub["t"] for pub in ctx["pubs"]}
             seen = [r["pid"] for r in log if r["replay"] and r["c"] == rp["c"] and r["t"] == x]
             n_same = sum(1 for q in ctx["replays"] if q["c"] == rp["c"] and q["t"] == x)
             res.count("replays_checked")
-            if n_same == 1 and seen != hist:
+            if n_same != 1 or tie_at_cut:
+                continue
+            in_time_order = all(t_of.get(a, -1) <= t_of.get(b, -1) for a, b in zip(seen, seen[1:]))
+            if sorted(seen) != sorted(hist) or not in_time_order:
                 res.add(
                     "replay-differs-from-retained-history",
                     "Topic",
